@@ -53,6 +53,8 @@ func checkC18(c *Ctx) {
 	checkReloadPreparesFreshObjects(c, "C18.R11", entries)
 	c.Rule("C18.R12", "whatever the running state derives from the configuration at start-up, a reload derives again: every runtimeState field that a function reachable from the state's construction stores with a value depending on a config.Compiled is also stored — or updated in place from the new config.Compiled — by a function reachable from each reload entry (an index, limit table or switch that is only rebuilt by a start-up-only or test-only path keeps answering for the old configuration)")
 	checkReloadRederives(c, "C18.R12", entries)
+	c.Rule("C18.R13", "an object of the running state is carried over a reload only if nothing configured about it changed: wherever a function reachable from a reload entry installs a value taken out of a container of the running state into the state being applied, the site is dominated by the true edge of a predicate over the old and the new object that reads every exported field the reload's builder sets on that type (today nothing is carried over except the nonce state, which C09.R2 decides)")
+	checkCarryOverCoversConfig(c, "C18.R13", entries)
 	c.Floor("C18.R1", "reload_entry_functions", len(entries), 1)
 	for _, entry := range entries {
 		ename := "app." + entry.Name()
